@@ -260,7 +260,7 @@ def run(ctx, rep):
                            b.get('impl_flags', b.get('real_tree', b.get('real_paths'))))
     # ---- compound statement contexts: try / with / comprehensions (Model/ExecTry.v: C05_flags_sound_try, C05_visitor_flags_t_absint) ----
     import execcheck_try
-    tstats, tbad = execcheck_try.run_try(ctx.rng('exect').randrange(10 ** 6), 150 if ctx.quick else 1500)
+    tstats, tbad = execcheck_try.run_try(ctx.rng('exect').randrange(10 ** 6), 100 if ctx.quick else 1000)
     rep.coverage.update(tstats)
     rep.evaluations += tstats['try_programs']
     for b in tbad:
@@ -272,9 +272,27 @@ def run(ctx, rep):
             rep.corr_break('exec-try-grammar ' + b['kind'], b['program'] + ' / ' + b.get('source', ''),
                            b.get('model_flags', b.get('model_tree', b.get('problem'))),
                            b.get('impl_flags', b.get('real_tree', b.get('run'))))
+    # ---- for loops on top of the compound contexts (Model/ExecLoop.v: C05_loop_flags_sound_loop_partial / _refuted) ----
+    import execcheck_loop
+    lstats, lbad = execcheck_loop.run_loop(ctx.rng('execl').randrange(10 ** 6), 100 if ctx.quick else 1000)
+    rep.coverage.update(lstats)
+    rep.evaluations += lstats['loop_programs']
+    for b in lbad:
+        if b['kind'] == 'loop-exec' and str(b.get('problem', '')).startswith('loop_stable program'):
+            # a really executed call site flagged *use* whose callee received something else
+            rep.violation('C05:flag-unsound', b['problem'] + '\n' + b['source'],
+                          {'kind': 'exec-loop-grammar', 'prog': b['prog'], 'program': b['program'], 'source': b['source']})
+        elif b['kind'] in ('loop-flags', 'loop-exec') and b.get('concrete'):
+            c = b['concrete']
+            rep.violation('C05:flag-unsound', c['problem'] + '\n' + c['source'],
+                          {'kind': 'exec-loop-grammar', 'prog': b['prog'], 'program': b['program'], 'source': c['source'], 'site': c.get('site')})
+        else:
+            rep.corr_break('exec-loop-grammar ' + b['kind'], b['program'] + ' / ' + b.get('source', ''),
+                           b.get('model_flags', b.get('model_tree', b.get('problem'))),
+                           b.get('impl_flags', b.get('real_tree', b.get('run'))))
     rep.assumptions = [
         'star arguments that are not the pristine *args/**kwargs are values chosen by the program (angelic): a call counts as honoured when some choice of them lets it run',
-        'for/while loops, async def, except-as, import-as, match captures and class bodies are outside the property\'s grammar and are not generated',
+        'loops are outside the property\'s grammar: the statement-grammar run (Model/ExecLoop.v) explores for loops against the model, where unsound flags on loop bodies that are not fixed points are the expected, refuted case; async def, except-as, import-as, match captures and class bodies are not generated',
         'callee and decoy bodies do nothing, so every TypeError raised by an execution is an argument-binding error',
         'Model/Exec.v: a dict method call on **kwargs and handing **kwargs to other code MAY mutate it (over-approximation); '
         'the execution comparison is therefore one-directional: wherever the model says untouched, the real callee receives the untouched object',
@@ -283,6 +301,9 @@ def run(ctx, rep):
 
 def replay(ctx, data):
     r = data['replay']
+    if r.get('kind') == 'exec-loop-grammar':
+        import execcheck_loop
+        return execcheck_loop.replay_loop(r['prog'])
     if r.get('kind') == 'exec-try-grammar':
         import execcheck_try
         return execcheck_try.replay_try(r['prog'])
